@@ -1,4 +1,3 @@
-import PyramidModel.TopoDerive
 import PyramidModel.Gen.C05
 /-!
 C05 — executable model of the permission mediation around view bodies.
@@ -8,8 +7,8 @@ Mirrors (file:lines of /repo/src/pyramid):
 * `viewderivers.py:214-241`  `owrapped_view`                    → layer `owrapped` (inner view first, then the wrapper
                                                                    view through `render_view_to_response`, `secure=True`)
 * `config/views.py:183-203`  `predicated_view`                  → layer `predicated`
-* `config/views.py:1165-1176` `_apply_view_derivers`            → `chain` (the GENERATED default deriver list sorted by the
-                                                                   proven C18 sorter, the two fixed outer wrappers in front)
+* `config/views.py:1165-1176` `_apply_view_derivers`            → `chain` (the wrapping order OBSERVED on the tree under test;
+                                                                   cross-checked against the proven C18 sorter in Props)
 * `config/views.py:944-1007` `add_view.register`                → `registerView` (normal and exception variants)
 * `config/views.py:1665-1892, 2234-2260` forbidden/notfound/exception/static directives → `lower` (GENERATED table)
 * `config/views.py:78-154`   `MultiView.__call__/__permitted__/__call_permissive__/match` → `callMulti`, `callSlot`, `vep`
@@ -27,7 +26,6 @@ resolution orders and each view's `order` are inputs.
 -/
 namespace Pyr.Security
 
-open Pyr.Topo
 
 /-! ### exception kinds (ids shared with the harness) -/
 def kForbidden : Nat := 13
@@ -75,18 +73,18 @@ deriving DecidableEq, Repr
 
 /-! ### phases, regenerated from the source -/
 
-def lookupOrder (d callable : String) (dflt : Int) : Int :=
+/-- the `order` of the ONE action of directive `d` whose execution was observed (by the probe, on the tree under
+test) to produce the directive's effect; anything else (no such action, two of them, probe failed) ⇒ `dflt` -/
+def lookupOrder (d : String) (dflt : Int) : Int :=
   match Pyr.Gen.C05.directiveOrders.lookup d with
-  | some l => match l.find? (fun oc => oc.2 == callable) with
-    | some oc => oc.1
-    | none => dflt
-  | none => dflt
+  | some (_, [o]) => o
+  | _ => dflt
 
-/-- unknown shapes resolve to "policy later than views" so that the phase obligation fails -/
-def phasePolicy : Int := lookupOrder "set_security_policy" "register" 99999
-def phaseLegacy : Int := lookupOrder "set_authentication_policy" "register" 99999
-def phaseDefault : Int := lookupOrder "set_default_permission" "register" 99999
-def phaseView : Int := lookupOrder "add_view" "register" (-99999)
+/-- unknown resolves to "policy later than views" so that the phase obligation fails -/
+def phasePolicy : Int := lookupOrder "set_security_policy" 99999
+def phaseLegacy : Int := lookupOrder "set_authentication_policy" 99999
+def phaseDefault : Int := lookupOrder "set_default_permission" 99999
+def phaseView : Int := lookupOrder "add_view" (-99999)
 
 def Stmt.phase : Stmt → Int
   | .setPolicy legacy => if legacy then phaseLegacy else phasePolicy
@@ -148,7 +146,7 @@ def deriveBoth (policy : Bool) (dflt : PermArg) (v : ViewStmt) : List DView :=
 
 def forcedPerm (directive : String) : Option PermArg :=
   match Pyr.Gen.C05.specialDirectives.lookup directive with
-  | some (p, _, _) => if p = "NO_PERMISSION_REQUIRED" then some .npr else none
+  | some (p, _, _) => if p = "unguarded" then some .npr else none
   | none => none
 
 def directiveName : Nat → String
@@ -197,11 +195,9 @@ def layerOf (s : String) : Layer :=
   else if s = "owrapped_view" then .owrapped
   else .other
 
-/-- outermost first: the fixed outer wrappers, then the default derivers as sorted by the C18 model -/
-def chainNames : List String :=
-  match deriverNamesOf defaultDeriverSorter.sorted with
-  | some l => wrappingOrder l
-  | none => []
+/-- outermost first: the order in which the layers of a derived view are ENTERED, observed on the tree under test by
+replacing every deriver with a tracing one (`Gen.C05.probedWrapping`; `["unknown"]` when the probe failed) -/
+def chainNames : List String := Pyr.Gen.C05.probedWrapping
 
 def chain : List Layer := chainNames.map layerOf
 
@@ -348,6 +344,14 @@ def mainPhase (ch : List Layer) (views : List DView) (w : World) (q : Req) : Res
   | .mismatch => (r.1, .raised kPredMismatch)
   | _ => r
 
+/-- what `excview_tween` makes of the outcome `o` of the exception-view lookup for an exception of kind `k` -/
+def excOutcome (k : Nat) (o : Outcome) : Outcome :=
+  match o with
+  | .none => .raised k
+  | .mismatch => .raised k
+  | .raised k' => if isNotFoundFamily k' then .raised k else o
+  | _ => o
+
 /-- `excview_tween` → `_error_handler` → `invoke_exception_view` for an exception of kind `k`: no view, or
 `HTTPNotFound`/`PredicateMismatch` out of the exception view ⇒ the original exception is re-raised;
 anything else (HTTPForbidden of a refused exception view included) propagates -/
@@ -385,15 +389,18 @@ def permittedOf (w : World) (ctx : Nat) (d : DView) : Res :=
   | some p => ([.permits ctx p (w.pol ctx p)], .perm (w.pol ctx p))
   | none => ([], .perm true)
 
+/-- `MultiView.__permitted__`: the first constituent whose predicates hold (`match`), its `__permitted__` or `True` -/
+def multiPermitted (w : World) (ctx : Nat) (holds : DView → Bool) (ds : List DView) : Res :=
+  match ds.find? holds with
+  | none => ([], .raised kPredMismatch)
+  | some d => permittedOf w ctx d
+
 /-- `view_execution_permitted`: `adapters.lookup(…, ISecuredView)` (a MultiView provides it), else `IView` -/
 def vep (views : List DView) (w : World) (q : Req) : Res :=
   let slots := findViews views false q.ifaces q.sro q.name
   match slots.find? isSecuredKind with
   | some [d] => permittedOf w q.ctx d
-  | some ds =>
-    match ds.find? (predsHold q.preds) with
-    | none => ([], .raised kPredMismatch)
-    | some d => permittedOf w q.ctx d
+  | some ds => multiPermitted w q.ctx (predsHold q.preds) ds
   | none => if slots.isEmpty then ([], .raised kTypeError) else ([], .perm true)
 
 end Pyr.Security
